@@ -1,14 +1,26 @@
 #!/bin/bash
-# Run every seeded change against its property's quick check; write seeded/RESULTS.md.  (Each run applies the patch to /repo and restores it.)
+# Run every seeded change against its property's quick check and write seeded/RESULTS.md.
+# Each change is applied in a scratch worktree of /repo HEAD (outside /repo and /verif) and the check is pointed at it with
+# VERIF_REPO, with its own scratch directory (VERIF_WORK), so /repo itself is never touched and other work can go on meanwhile.
+# (tools/mutant.sh does the same thing directly on /repo, the way the brief describes: apply, run, undo.)
 cd /verif
 OUT=seeded/RESULTS.md
-echo "| seeded change | property | check exit | verdict |" > $OUT.tmp; echo "|---|---|---|---|" >> $OUT.tmp
+WT=/tmp/seeded_sweep_wt
+export VERIF_WORK=/verif/work/sweep VERIF_EVIDENCE_DIR=/verif/work/sweep/evidence
+mkdir -p $VERIF_WORK
+echo "| seeded change | property | check exit | verdict | first reported failing input |" > $OUT.tmp; echo "|---|---|---|---|---|" >> $OUT.tmp
 for d in seeded/*/; do
   id=$(basename $d); [ -f $d/patch.diff ] || continue
+  [ -n "$ONLY" ] && ! echo "$id" | grep -qE "$ONLY" && continue
   prop=$(python3 -c "import json;print(json.load(open('$d/meta.json'))['property'])")
-  tools/mutant.sh /verif/$d/patch.diff $prop quick > work/seeded_$id.log 2>&1; rc=$?
+  git -C /repo worktree remove --force $WT 2>/dev/null; rm -rf $WT
+  git -C /repo worktree add --detach $WT HEAD >/dev/null 2>&1
+  if ! git -C $WT apply /verif/$d/patch.diff 2>/dev/null; then echo "| $id | $prop | - | patch does not apply | |" >> $OUT.tmp; continue; fi
+  VERIF_REPO=$WT ./check $prop --tier quick > $VERIF_WORK/seeded_$id.log 2>&1; rc=$?
   v="MISSED"; [ $rc = 1 ] && v="detected"; [ $rc = 2 ] && v="tool-error"
-  echo "| $id | $prop | $rc | $v |" >> $OUT.tmp
+  first=$(grep -m1 "failing input" $VERIF_WORK/seeded_$id.log | cut -c18-200 | tr '|' '/')
+  echo "| $id | $prop | $rc | $v | \`$first\` |" >> $OUT.tmp
   echo "$id $prop exit=$rc $v"
 done
+git -C /repo worktree remove --force $WT 2>/dev/null; rm -rf $WT
 mv $OUT.tmp $OUT
